@@ -51,6 +51,16 @@ pub enum Op {
     MsFill { m: u8, size: u16 },
     /// fan-in: create `n` holders all pointing at obj(root target)
     FanIn { m: u8, target: u8, holder: u8, n: u8 },
+    /// allocate a referent (semantics `sem`, `chain` further objects behind it) and a registered reference
+    /// object of kind 1..3 (soft/weak/phantom) in `root`; `keep`: 0 = referent otherwise unreachable,
+    /// 1 = referent also held by root+1, 2 = referent held by a field of obj(root+2), 3 = referent reachable
+    /// only through a second, soft reference; `fin`: also register a finalizer on the referent
+    WeakPair { m: u8, root: u8, kind: u8, keep: u8, sem: u8, chain: u8, fin: bool },
+    /// allocate a finalizable object with a closure of `n` objects; `regs` registrations; root dropped iff `drop`
+    FinObj { m: u8, root: u8, n: u8, regs: u8, drop: bool },
+    /// SATB pattern: move the referent of the first non-null field of obj(src) into a field of obj(dst),
+    /// null the original field (both through the barrier) and drop every root naming the referent
+    Hide { m: u8, src: u8, dst: u8 },
 }
 
 #[derive(Serialize, Deserialize, Clone, Debug, PartialEq, Eq, Hash)]
